@@ -946,7 +946,10 @@ class IRGenerator:
                                     isinstance(default_value, numbers.Real)):
                                 # You can assign int to the default value of float type
                                 # However float type should always have default value in float
-                                default_value = float(default_value)
+                                try:
+                                    default_value = float(default_value)
+                                except OverflowError:
+                                    raise ValueError('%s is too large for a float' % default_value)
                             try:
                                 field.data_type.check(default_value)
                             except NotImplementedError:
